@@ -73,6 +73,7 @@ type Ctl struct {
 	sent     int            // bytes handed to the client's Read so far
 	peerGone bool
 	halfClosed bool // the peer ended its sending direction and stopped reading
+	wrFailed   bool // the client's writes fail; the peer neither reads nor sends any more (no EOF)
 	nfault   int
 	recvExited bool
 	senderExited bool
